@@ -115,6 +115,10 @@ type Worker struct {
 	nPaths  int
 	sampled int
 	knownOn map[string]bool
+	dom       map[*Term]byteSet
+	entangled map[*Term]bool
+	condCache map[*Term]*condInfo
+	domHits   int64
 }
 
 func (w *Worker) addPC(c *Term) {
@@ -125,6 +129,13 @@ func (w *Worker) addPC(c *Term) {
 		return
 	}
 	w.pc = append(w.pc, c)
+	if c.svState == 2 {
+		w.domAdd(c)
+	} else {
+		for _, v := range c.Vars() {
+			w.entangled[v] = true
+		}
+	}
 }
 
 func (w *Worker) check(extra ...*Term) SatResult {
@@ -150,13 +161,24 @@ func (w *Worker) branch(c *Term) bool {
 		return v == 1
 	}
 	var alts []int
-	rt := w.check(c)
-	if rt == Unknown {
-		w.st.UnknownFeas++
-	}
-	if rt == Unsat {
+	if known, val := w.domDecide(c); known {
+		w.domHits++
+		if val {
+			alts = []int{1}
+		} else {
+			alts = []int{0}
+		}
+	} else if ci := w.condInfo(c); ci != nil && !w.entangled[ci.v] {
+		// the byte is constrained only by single-variable constraints, so
+		// its tracked domain is exact and both sides are feasible
+		w.domHits++
+		alts = []int{1, 0}
+	} else if rt := w.check(c); rt == Unsat {
 		alts = []int{0}
 	} else {
+		if rt == Unknown {
+			w.st.UnknownFeas++
+		}
 		rf := w.check(tt.Not(c))
 		if rf == Unknown {
 			w.st.UnknownFeas++
@@ -481,6 +503,11 @@ func (w *Worker) runPath(fn *ssa.Function) (kind string, msg string) {
 	w.draws = w.draws[:0]
 	w.drawSeq = 0
 	w.knownOn = map[string]bool{}
+	w.dom = map[*Term]byteSet{}
+	w.entangled = map[*Term]bool{}
+	if w.condCache == nil {
+		w.condCache = map[*Term]*condInfo{}
+	}
 	w.in.resetPath()
 	kind = "ok"
 	defer func() {
@@ -585,6 +612,7 @@ func (w *Worker) resetSolver() {
 	w.solver.Close()
 	q, t, e := w.solver.Queries, w.solver.Time, w.solver.Errors
 	w.tt = newTermTable()
+	w.condCache = map[*Term]*condInfo{}
 	w.in.tt = w.tt
 	w.in.consts = make(map[*ssa.Const]Value)
 	s, err := newSolver(w.solver.kind, w.tt, w.solver.timeoutMs)
